@@ -110,9 +110,9 @@ PROPS = {
     },
     'C10': {
         'theorems': 'Properties/C10', 'scenarios': ['flow-forged-owner', 'flow-sponsor-rollback'], 'obligation_files': [],
-        'profiles': [SAO, NODE],
-        'projection': ['order.Order+keys', 'order.Order#5', 'order.Shard#1', 'order.Shard#6', 'node.Node', 'node.Pledge', 'bank.Balance'],
-        'monitors': ['authz.complete', 'authz.cancel', 'authz.payer', 'frame.node_msgs'], 'families': ['sao', 'node'],
+        'profiles': [SAO, NODE, DID],
+        'projection': ['order.Order+keys', 'order.Order#5', 'order.Shard#1', 'order.Shard#6', 'node.Node', 'node.Pledge', 'bank.Balance', 'did.Did', 'did.AccountList'],
+        'monitors': ['authz.complete', 'authz.cancel', 'authz.payer', 'frame.node_msgs', 'did.did_has_acc', 'did.list_sound', 'did.list_complete'], 'families': ['sao', 'node', 'did'],
     },
     'C11': {
         'theorems': 'Properties/C11', 'scenarios': ['flow-renew2-migrate', 'flow-rollover-coincide', 'flow-short-renewal', 'flow-renewed-versions'], 'obligation_files': ['Obligations/ObShape', 'Proofs/Refinement'],
